@@ -13,7 +13,8 @@
 //!    `ValidationOutputFilters::drop_payload`;
 //!  * files: every list of <= 2 entries per section over the full entry
 //!    alphabet of that section (comments with quotes, backslashes, control and
-//!    non-ASCII characters; max-length absent / = length / longer / family
+//!    non-ASCII characters; prefixes incl. IPv4-mapped / IPv4-compatible IPv6
+//!    and other unusual spellings; max-length absent / = length / longer / family
 //!    maximum; key info of 0..4 and 91 octets; 0..3 providers), all sections
 //!    combined over small menus with the ASPA sections absent / empty /
 //!    filled: compact, pretty, writer forms parsed back; `iter_payload`.
@@ -187,6 +188,80 @@ impl MFile {
     }
 }
 
+//------------ own JSON writer (RFC 8416 member names) -------------------------
+
+fn json_str(s: &str) -> String {
+    let mut o = String::from("\"");
+    for c in s.chars() {
+        match c {
+            '"' => o.push_str("\\\""),
+            '\\' => o.push_str("\\\\"),
+            c if (c as u32) < 0x20 => o.push_str(&format!("\\u{:04x}", c as u32)),
+            c => o.push(c),
+        }
+    }
+    o.push('"');
+    o
+}
+
+fn b64url(data: &[u8]) -> String {
+    const A: &[u8; 64] = b"ABCDEFGHIJKLMNOPQRSTUVWXYZabcdefghijklmnopqrstuvwxyz0123456789-_";
+    let mut o = String::new();
+    for ch in data.chunks(3) {
+        let n = (ch[0] as u32) << 16 | (*ch.get(1).unwrap_or(&0) as u32) << 8 | *ch.get(2).unwrap_or(&0) as u32;
+        o.push(A[(n >> 18) as usize & 63] as char); o.push(A[(n >> 12) as usize & 63] as char);
+        if ch.len() > 1 { o.push(A[(n >> 6) as usize & 63] as char) }
+        if ch.len() > 2 { o.push(A[n as usize & 63] as char) }
+    }
+    o
+}
+
+fn obj(members: Vec<Option<String>>) -> String { format!("{{{}}}", members.into_iter().flatten().collect::<Vec<_>>().join(",")) }
+fn arr<T>(v: &[T], f: impl Fn(&T) -> String) -> String { format!("[{}]", v.iter().map(f).collect::<Vec<_>>().join(",")) }
+fn cm_json(c: Cm) -> Option<String> { c.map(|c| format!("\"comment\":{}", json_str(c))) }
+
+impl MPF { fn json(&self) -> String { obj(vec![self.prefix.map(|p| format!("\"prefix\":\"{}\"", p.text())), self.asn.map(|a| format!("\"asn\":{a}")), cm_json(self.comment)]) } }
+impl MBF { fn json(&self) -> String { obj(vec![self.ski.map(|k| format!("\"SKI\":\"{}\"", b64url(&k))), self.asn.map(|a| format!("\"asn\":{a}")), cm_json(self.comment)]) } }
+impl MAF { fn json(&self) -> String { obj(vec![self.customer.map(|a| format!("\"customerAsid\":{a}")), cm_json(self.comment)]) } }
+impl MPA { fn json(&self) -> String { obj(vec![Some(format!("\"prefix\":\"{}\"", self.p.text())), Some(format!("\"asn\":{}", self.asn)), self.maxlen.map(|m| format!("\"maxPrefixLength\":{m}")), cm_json(self.comment)]) } }
+impl MBA { fn json(&self) -> String { obj(vec![Some(format!("\"asn\":{}", self.asn)), Some(format!("\"SKI\":\"{}\"", b64url(&self.ski))), Some(format!("\"routerPublicKey\":\"{}\"", b64url(&self.info))), cm_json(self.comment)]) } }
+impl MAA { fn json(&self) -> String { obj(vec![Some(format!("\"customerAsn\":{}", self.customer)), Some(format!("\"providerAsns\":{}", arr(&self.providers, |a| a.to_string()))), cm_json(self.comment)]) } }
+
+impl MFile {
+    /// The file as RFC 8416 text. An absent ASPA section is either left out
+    /// or written as `null` (`absent_as_null`).
+    fn json(&self, version: u8, absent_as_null: bool) -> String {
+        let opt = |name: &str, v: Option<String>| match v { Some(t) => Some(format!("\"{name}\":{t}")), None if absent_as_null => Some(format!("\"{name}\":null")), None => None };
+        obj(vec![
+            Some(format!("\"slurmVersion\":{version}")),
+            Some(format!("\"validationOutputFilters\":{}", obj(vec![
+                Some(format!("\"prefixFilters\":{}", arr(&self.pf, |x| x.json()))), Some(format!("\"bgpsecFilters\":{}", arr(&self.bf, |x| x.json()))),
+                opt("aspaFilters", self.af.as_ref().map(|l| arr(l, |x| x.json())))]))),
+            Some(format!("\"locallyAddedAssertions\":{}", obj(vec![
+                Some(format!("\"prefixAssertions\":{}", arr(&self.pa, |x| x.json()))), Some(format!("\"bgpsecAssertions\":{}", arr(&self.ba, |x| x.json()))),
+                opt("aspaAssertions", self.aa.as_ref().map(|l| arr(l, |x| x.json())))]))),
+        ])
+    }
+}
+
+/// IPv6 prefixes whose text form is unusual: IPv4-mapped and IPv4-compatible
+/// (printed with a dotted quad), NAT64, loopback, zero runs at either end and
+/// in the middle, all-ones.
+fn unusual_v6() -> Vec<MPfx> {
+    vec![
+        MPfx::v6(0, 0x0000_ffff_0000_0000, 96),          // ::ffff:0.0.0.0/96
+        MPfx::v6(0, 0x0000_ffff_c000_0200, 120),         // ::ffff:192.0.2.0/120
+        MPfx::v6(0, 0x0000_ffff_c000_0201, 128),         // ::ffff:192.0.2.1/128
+        MPfx::v6(0, 0x0000_0000_c000_0200, 120),         // ::192.0.2.0/120 (IPv4-compatible)
+        MPfx::v6(0x0064_ff9b_0000_0000, 0x0000_0000_c000_0200, 120), // 64:ff9b::192.0.2.0/120
+        MPfx::v6(0, 1, 128),                             // ::1/128
+        MPfx::v6(0x2001_0db8_0000_0000, 0x0001_0000_0000_0000, 80),  // 2001:db8::1:0:0:0/80 (zeros in the middle)
+        MPfx::v6(0x2001_0000_0000_0001, 0, 64),          // 2001:0:0:1::/64
+        MPfx::v6(0xffff_ffff_ffff_ffff, 0xffff_ffff_ffff_ff00, 120), // all ones /120
+        MPfx::v6(0x8000_0000_0000_0000, 0, 1),           // 8000::/1
+    ]
+}
+
 fn filters_text(pf: &[MPF], bf: &[MBF], af: Option<&[MAF]>) -> String {
     MFile { pf: pf.to_vec(), bf: bf.to_vec(), af: af.map(|x| x.to_vec()), ..Default::default() }.text().split(" prefixAssertions").next().unwrap().to_string()
 }
@@ -294,11 +369,12 @@ fn main() {
 
     // ------------------------------------------------------------------ (1)
     let sp = ctx.space("filter.single",
-        "every single filter against every payload item, through the filter's own drop_origin / drop_router_key / drop_aspa and drop_payload: prefix filters = {absent} + every length 0..32 (0..128) of the prefixes of 192.0.2.129 (2001:db8:0:8000::81) and of the address with the last prefix bit flipped, x AS {absent, equal, different}; origins = the same prefix grid x 2 AS; BGPsec filters = SKI {absent, K1, K2 (last bit differs)} x AS {absent, equal, different}; ASPA filters = customer {absent, equal, different, = a provider}; drop_payload of a filter on an item of another kind must be false; non-trivial = pairs where the filter has a criterion and is of the item's kind");
+        "every single filter against every payload item, through the filter's own drop_origin / drop_router_key / drop_aspa and drop_payload: prefix filters = {absent} + every length 0..32 (0..128) of the prefixes of 192.0.2.129, 2001:db8:0:8000::81 and the IPv4-mapped ::ffff:192.0.2.129, and of the address with the last prefix bit flipped, x AS {absent, equal, different}; origins = the same prefix grid x 2 AS; BGPsec filters = SKI {absent, K1, K2 (last bit differs)} x AS {absent, equal, different}; ASPA filters = customer {absent, equal, different, = a provider}; drop_payload of a filter on an item of another kind must be false; non-trivial = pairs where the filter has a criterion and is of the item's kind");
     {
         let a4: u128 = 0xC000_0281; let a6: u128 = (0x2001_0db8_0000_8000u128 << 64) | 0x81;
         let mut grid: Vec<MPfx> = Vec::new();
-        for (v4, addr, w) in [(true, a4, 32u8), (false, a6, 128u8)] {
+        let a6m: u128 = 0x0000_ffff_c000_0281; // ::ffff:192.0.2.129 (IPv4-mapped)
+        for (v4, addr, w) in [(true, a4, 32u8), (false, a6, 128u8), (false, a6m, 128u8)] {
             for len in 0..=w {
                 grid.push(MPfx::of_addr(v4, addr, len));
                 if len > 0 { let flip = addr ^ (1u128 << (w - len) as u32); grid.push(MPfx::of_addr(v4, flip, len)) }
@@ -307,6 +383,7 @@ fn main() {
         grid.sort(); grid.dedup();
         // an IPv6 prefix with the same leading bits as 192.0.2.0/24 and vice versa (family confusion)
         grid.push(MPfx::v6(0xC000_0200_0000_0000, 0, 24)); grid.push(MPfx::v4([0x20, 0x01, 0x0d, 0xb8], 32));
+        grid.extend(unusual_v6()); grid.sort(); grid.dedup();
         let asns = [None, Some(64496u32), Some(64497)];
         let mut pfs: Vec<MPF> = Vec::new();
         for a in asns { pfs.push(MPF { prefix: None, asn: a, comment: None }); for &g in &grid { pfs.push(MPF { prefix: Some(g), asn: a, comment: None }) } }
@@ -380,11 +457,12 @@ fn main() {
 
     // ------------------------------------------------------------------ (2)
     let sp = ctx.space("drop.filter_lists",
-        "all prefix-filter lists of length <= 2 x all BGPsec-filter lists of length <= 2 x ASPA section {absent} + all lists of length <= 2 (thorough: prefix lists <= 3 with the other kinds <= 1 in addition), each against 6 origins, 4 router keys, 3 ASPAs, through SlurmFile::drop_payload and ValidationOutputFilters::drop_payload; criterion alphabets: prefix {absent, equal, covering /16, more specific /25, disjoint, other family, same leading bits in the other family, 0.0.0.0/0, ::/0} x AS {absent, equal, different} (+ one with a comment), SKI {absent, equal, different} x AS likewise, customer {absent, equal, different, = a provider of the item}; non-trivial = (lists, item) pairs in which some filter of the item's kind has a criterion; outcome classes count the reference verdicts (kept / dropped by kind), which the library must reproduce");
+        "all prefix-filter lists of length <= 2 x all BGPsec-filter lists of length <= 2 x ASPA section {absent} + all lists of length <= 2 (thorough: prefix lists <= 3 with the other kinds <= 1 in addition), each against 8 origins (incl. IPv4-mapped IPv6), 4 router keys, 3 ASPAs, through ValidationOutputFilters::drop_payload and through SlurmFile::drop_payload of three files holding those filters (SlurmFile::new; new without ASPA sections then the public fields assigned; default() then filters assigned); criterion alphabets: prefix {absent, equal, covering /16, more specific /25, disjoint, other family, same leading bits in the other family, 0.0.0.0/0, ::/0, ::ffff:0:0/96, ::ffff:192.0.2.0/120, ::192.0.2.0/120} x AS {absent, equal, different} (+ one with a comment), SKI {absent, equal, different} x AS likewise, customer {absent, equal, different, = a provider of the item}; non-trivial = (lists, item) pairs in which some filter of the item's kind has a criterion; outcome classes count the reference verdicts (kept / dropped by kind), which the library must reproduce");
     {
         let base = MPfx::v4([192, 0, 2, 0], 24);
         let pfx_alpha: Vec<Option<MPfx>> = vec![None, Some(base), Some(MPfx::v4([192, 0, 0, 0], 16)), Some(MPfx::v4([192, 0, 2, 0], 25)), Some(MPfx::v4([198, 51, 100, 0], 24)),
-            Some(MPfx::v6(0x2001_0db8_0000_0000, 0, 32)), Some(MPfx::v6(0xC000_0200_0000_0000, 0, 24)), Some(MPfx::v4([0, 0, 0, 0], 0)), Some(MPfx::v6(0, 0, 0))];
+            Some(MPfx::v6(0x2001_0db8_0000_0000, 0, 32)), Some(MPfx::v6(0xC000_0200_0000_0000, 0, 24)), Some(MPfx::v4([0, 0, 0, 0], 0)), Some(MPfx::v6(0, 0, 0)),
+            Some(MPfx::v6(0, 0x0000_ffff_0000_0000, 96)), Some(MPfx::v6(0, 0x0000_ffff_c000_0200, 120)), Some(MPfx::v6(0, 0x0000_0000_c000_0200, 120))];
         let asn_alpha = [None, Some(64496u32), Some(64497)];
         let mut pf_items: Vec<MPF> = Vec::new();
         for &p in &pfx_alpha { for a in asn_alpha { pf_items.push(MPF { prefix: p, asn: a, comment: None }) } }
@@ -398,6 +476,7 @@ fn main() {
             MPay::Origin { p: base, maxlen: None, asn: 64496 }, MPay::Origin { p: base, maxlen: Some(28), asn: 64497 },
             MPay::Origin { p: MPfx::v4([192, 0, 2, 128], 25), maxlen: Some(32), asn: 64496 }, MPay::Origin { p: MPfx::v4([192, 0, 0, 0], 8), maxlen: None, asn: 64496 },
             MPay::Origin { p: MPfx::v6(0x2001_0db8_0000_0000, 0, 32), maxlen: Some(48), asn: 64496 }, MPay::Origin { p: MPfx::v6(0xC000_0200_0000_0000, 0, 24), maxlen: None, asn: 64498 },
+            MPay::Origin { p: MPfx::v6(0, 0x0000_ffff_c000_0200, 120), maxlen: Some(128), asn: 64496 }, MPay::Origin { p: MPfx::v6(0, 0x0000_ffff_c000_0201, 128), maxlen: None, asn: 64497 },
             MPay::Key { ski: K1, asn: 64496, info: vec![0x30, 0x59] }, MPay::Key { ski: K2, asn: 64496, info: vec![0x30, 0x59] },
             MPay::Key { ski: K1, asn: 64497, info: vec![] }, MPay::Key { ski: K0, asn: 64498, info: vec![1] },
             MPay::Aspa { customer: 64496, providers: vec![64499] }, MPay::Aspa { customer: 64497, providers: vec![64496, 64499] }, MPay::Aspa { customer: 64498, providers: vec![] },
@@ -415,19 +494,32 @@ fn main() {
 
         let run = |pi: usize, bi: usize, ai: usize, lf: &mut Lf, cnt: &mut [u64; 6]| {
             let (mp, mb, ma) = (&pf_lists[pi], &bf_lists[bi], af_lists[ai].as_deref());
-            let filters = ValidationOutputFilters { prefix: lib_pf[pi].clone(), bgpsec: lib_bf[bi].clone(), aspa: lib_af[ai].clone() };
-            let file = SlurmFile::new(filters, LocallyAddedAssertions::default());
+            let mk = || ValidationOutputFilters { prefix: lib_pf[pi].clone(), bgpsec: lib_bf[bi].clone(), aspa: lib_af[ai].clone() };
+            // three ways to arrive at a file holding these filters
+            let f_new = SlurmFile::new(mk(), LocallyAddedAssertions::default());
+            let mut f_v1 = SlurmFile::new(ValidationOutputFilters::new(Vec::new(), Vec::new()), LocallyAddedAssertions::new(Vec::new(), Vec::new()));
+            f_v1.filters.prefix = lib_pf[pi].clone(); f_v1.filters.bgpsec = lib_bf[bi].clone(); f_v1.filters.aspa = lib_af[ai].clone();
+            let mut f_def = SlurmFile::default(); f_def.filters = mk();
+            let files = [("SlurmFile::new", &f_new), ("new(no ASPA sections), then the public filter fields assigned", &f_v1), ("default(), then filters assigned", &f_def)];
             for (k, p) in pays.iter().enumerate() {
                 let want = model_drop(mp, mb, ma, p);
                 let (oracle, crit) = match p { MPay::Origin { .. } => ("C15.drop.origin", crit_pf[pi]), MPay::Key { .. } => ("C15.drop.router_key", crit_bf[bi]), MPay::Aspa { .. } => ("C15.drop.aspa", crit_af[ai]) };
-                match guard(|| (file.drop_payload(&lib_pays[k]), file.filters.drop_payload(&lib_pays[k]))) {
-                    Err(e) => lf.fail("C15.drop.no_panic", || format!("{} payload={}", filters_text(mp, mb, ma), p.text()), || e.clone()),
-                    Ok((a, b)) => if a != want || b != want {
-                        lf.fail(oracle, || format!("{} payload={}", filters_text(mp, mb, ma), p.text()),
-                            || format!("SlurmFile::drop_payload={a} ValidationOutputFilters::drop_payload={b}; a {} filter {}", p.kind(), if want { "matches, the item must be dropped" } else { "does not match, the item must be kept" }))
+                let verdict = if want { "matches, the item must be dropped" } else { "does not match, the item must be kept" };
+                for (form, file) in files {
+                    match guard(|| file.drop_payload(&lib_pays[k])) {
+                        Err(e) => lf.fail("C15.drop.no_panic", || format!("file={form} {} payload={}", filters_text(mp, mb, ma), p.text()), || e.clone()),
+                        Ok(a) => if a != want {
+                            lf.fail(oracle, || format!("file={form} {} payload={}", filters_text(mp, mb, ma), p.text()), || format!("SlurmFile::drop_payload={a}; a {} filter {verdict}", p.kind()))
+                        }
                     }
                 }
-                cnt[0] += 2; if crit { cnt[1] += 1 }
+                match guard(|| f_new.filters.drop_payload(&lib_pays[k])) {
+                    Err(e) => lf.fail("C15.drop.no_panic", || format!("{} payload={}", filters_text(mp, mb, ma), p.text()), || e.clone()),
+                    Ok(b) => if b != want {
+                        lf.fail(oracle, || format!("{} payload={}", filters_text(mp, mb, ma), p.text()), || format!("ValidationOutputFilters::drop_payload={b}; a {} filter {verdict}", p.kind()))
+                    }
+                }
+                cnt[0] += 4; if crit { cnt[1] += 1 }
                 match (want, p) { (false, _) => cnt[2] += 1, (true, MPay::Origin { .. }) => cnt[3] += 1, (true, MPay::Key { .. }) => cnt[4] += 1, (true, MPay::Aspa { .. }) => cnt[5] += 1 }
             }
         };
@@ -472,6 +564,93 @@ fn main() {
         sp.set("payload_items", serde_json::json!(pays.iter().map(|p| p.text()).collect::<Vec<_>>()));
         sp.sample_str(|| format!("{} payload={}", filters_text(&pf_lists[5], &bf_lists[3], af_lists[2].as_deref()), pays[6].text()));
         sp.done(true, &bound);
+
+        // -------------------------------------------------------------- (2b)
+        let sp = ctx.space("drop.file_forms",
+            "filter lists of length <= 1 per always-present kind x ASPA section {absent} + all lists of length <= 2, each held by every kind of file: parsed from hand-written RFC 8416 text with slurmVersion {1,2} x absent ASPA sections {left out, null} x aspaAssertions {absent, [], one entry}; built by SlurmFile::new and then changed through every public field (from a file without ASPA sections, from default(), from a file with other ASPA filters, assertions added afterwards, ASPA filters cleared and restored); cloned; written and parsed back. SlurmFile::drop_payload and ValidationOutputFilters::drop_payload on all 15 items must equal the reference predicate (which does not look at the version number); parsed files must also survive to_string -> from_str and yield their assertion's payload; non-trivial = (file, item) pairs in which a filter of the item's kind has a criterion; rejected texts are counted, not judged");
+        {
+            let pf1: Vec<usize> = (0..pf_lists.len()).filter(|&i| pf_lists[i].len() <= 1).collect();
+            let bf1: Vec<usize> = (0..bf_lists.len()).filter(|&i| bf_lists[i].len() <= 1).collect();
+            let one_aa = MAA { customer: 64496, providers: vec![64499, 64497], comment: None };
+            let one_pa = MPA { p: MPfx::v6(0, 0x0000_ffff_c000_0200, 120), maxlen: Some(124), asn: 64496, comment: None };
+            pf1.par_iter().for_each(|&pi| {
+                let mut lf = Lf::new(); let mut oc = Oc::new(); let (mut ev, mut nt) = (0u64, 0u64);
+                for &bi in &bf1 { for ai in 0..af_lists.len() {
+                    let (mp, mb, ma) = (&pf_lists[pi], &bf_lists[bi], af_lists[ai].as_deref());
+                    let target = || ValidationOutputFilters { prefix: lib_pf[pi].clone(), bgpsec: lib_bf[bi].clone(), aspa: lib_af[ai].clone() };
+                    let mut files: Vec<(String, SlurmFile, Option<Vec<MPay>>)> = Vec::new();
+                    // (i) parsed from text
+                    for version in [1u8, 2] { for null in [false, true] { for aa_form in 0..3 {
+                        if null && ma.is_some() && aa_form != 0 { continue } // `null` only changes absent sections
+                        let m = MFile { pf: mp.clone(), bf: mb.clone(), af: ma.map(|x| x.to_vec()), pa: if aa_form == 2 { vec![one_pa.clone()] } else { vec![] }, ba: vec![],
+                            aa: match aa_form { 0 => None, 1 => Some(vec![]), _ => Some(vec![one_aa.clone()]) } };
+                        let text = m.json(version, null);
+                        ev += 1;
+                        match guard(|| SlurmFile::from_str(&text)) {
+                            Err(e) => lf.fail("C15.json.no_panic", || format!("text={text}"), || e.clone()),
+                            Ok(Err(_)) => bump(&mut oc, "text-rejected"),
+                            Ok(Ok(f)) => {
+                                bump(&mut oc, "text-accepted");
+                                match guard(|| SlurmFile::from_str(&f.to_string()).map(|g| g == f).map_err(|e| e.to_string())) {
+                                    Ok(Ok(true)) => {}
+                                    other => lf.fail("C15.json.roundtrip", || format!("text={text}"), || format!("parsed file does not survive to_string -> from_str: {:?}; serialised as {}", other, f.to_string())),
+                                }
+                                files.push((format!("parsed text={text}"), f, Some(m.payloads())));
+                            }
+                        }
+                    }}}
+                    // (ii) built and then changed through the public fields
+                    {
+                        let mut f = SlurmFile::new(ValidationOutputFilters::new(Vec::new(), Vec::new()), LocallyAddedAssertions::new(Vec::new(), Vec::new()));
+                        f.filters.prefix = lib_pf[pi].clone(); f.filters.bgpsec = lib_bf[bi].clone(); f.filters.aspa = lib_af[ai].clone();
+                        files.push(("new(no ASPA sections), then each filter field assigned".into(), f, None));
+                        let mut f = SlurmFile::default();
+                        f.filters.prefix = lib_pf[pi].clone(); f.filters.bgpsec = lib_bf[bi].clone(); f.filters.aspa = lib_af[ai].clone();
+                        files.push(("default(), then each filter field assigned".into(), f, None));
+                        let mut f = SlurmFile::new(
+                            ValidationOutputFilters { prefix: vec![], bgpsec: vec![], aspa: Some(vec![AspaFilter::new(Some(Asn::from_u32(64496)), None), AspaFilter::new(Some(Asn::from_u32(64497)), None)]) },
+                            LocallyAddedAssertions { prefix: vec![], bgpsec: vec![], aspa: Some(vec![]) });
+                        f.filters = target();
+                        files.push(("new(other ASPA filters), then filters replaced".into(), f, None));
+                        let mut f = SlurmFile::new(target(), LocallyAddedAssertions::default());
+                        f.assertions.aspa = Some(vec![one_aa.lib()]); f.assertions.prefix.push(one_pa.lib());
+                        files.push(("new(filters), then assertions added".into(), f, Some(vec![one_pa.pay(), one_aa.pay()])));
+                        let mut f = SlurmFile::new(target(), LocallyAddedAssertions::default());
+                        f.filters.aspa = None; f.filters.prefix.clear(); f.filters.prefix = lib_pf[pi].clone(); f.filters.aspa = lib_af[ai].clone();
+                        files.push(("new(filters), then ASPA and prefix filters cleared and restored".into(), f, None));
+                        let f = SlurmFile::new(target(), LocallyAddedAssertions::default());
+                        files.push(("clone of new(filters)".into(), f.clone(), None));
+                        if let Ok(Ok(g)) = guard(|| SlurmFile::from_str(&f.to_string_pretty())) { files.push(("new(filters) written (pretty) and parsed back".into(), g, None)) }
+                        ev += 7;
+                    }
+                    for (form, file, want_pays) in &files {
+                        if let Some(wp) = want_pays {
+                            ev += 1;
+                            match guard(|| file.assertions.iter_payload().map(|p| fields_of(&p)).collect::<Vec<_>>()) {
+                                Ok(got) if got == *wp => {}
+                                other => lf.fail("C15.assertions.payload", || format!("file={form}"), || format!("iter_payload gave {:?}, expected {:?}", other.map(|v| v.iter().map(|p| p.text()).collect::<Vec<_>>()), wp.iter().map(|p| p.text()).collect::<Vec<_>>())),
+                            }
+                        }
+                        for (k, p) in pays.iter().enumerate() {
+                            let want = model_drop(mp, mb, ma, p);
+                            let (oracle, crit) = match p { MPay::Origin { .. } => ("C15.drop.origin", crit_pf[pi]), MPay::Key { .. } => ("C15.drop.router_key", crit_bf[bi]), MPay::Aspa { .. } => ("C15.drop.aspa", crit_af[ai]) };
+                            match guard(|| (file.drop_payload(&lib_pays[k]), file.filters.drop_payload(&lib_pays[k]))) {
+                                Err(e) => lf.fail("C15.drop.no_panic", || format!("file={form} {} payload={}", filters_text(mp, mb, ma), p.text()), || e.clone()),
+                                Ok((a, b)) => if a != want || b != want {
+                                    lf.fail(oracle, || format!("file={form} {} payload={}", filters_text(mp, mb, ma), p.text()),
+                                        || format!("SlurmFile::drop_payload={a} ValidationOutputFilters::drop_payload={b}; a {} filter {}", p.kind(), if want { "matches, the item must be dropped" } else { "does not match, the item must be kept" }))
+                                }
+                            }
+                            ev += 2; if crit { nt += 1 }
+                            bump(&mut oc, match (want, p) { (false, _) => "kept", (true, MPay::Origin { .. }) => "dropped-origin", (true, MPay::Key { .. }) => "dropped-router-key", (true, MPay::Aspa { .. }) => "dropped-aspa" });
+                        }
+                    }
+                }}
+                sp.evals(ev); sp.nontrivial(nt); sp.merge_outcomes(&oc);
+            });
+            sp.sample_str(|| MFile { pf: pf_lists[pf1[2]].clone(), bf: vec![], af: Some(vec![af_items[1].clone()]), pa: vec![], ba: vec![], aa: None }.json(1, false));
+            sp.done(true, &format!("{} prefix lists x {} BGPsec lists x {} ASPA sections x up to 19 file forms x {} items", pf1.len(), bf1.len(), af_lists.len(), pays.len()));
+        }
     }
 
     // ------------------------------------------------------------------ (3)
@@ -482,6 +661,11 @@ fn main() {
         for p in [None, Some(MPfx::v4([192, 0, 2, 0], 24)), Some(MPfx::v6(0x2001_0db8_0000_0000, 0, 32)), Some(MPfx::v4([0, 0, 0, 0], 0)), Some(MPfx::v6(u64::MAX, u64::MAX, 128))] {
             for a in [None, Some(0u32), Some(64496), Some(u32::MAX)] { for c in comments { v.push(MPF { prefix: p, asn: a, comment: c }) } }
         }
+        v
+    };
+    let pf_entries: Vec<MPF> = {
+        let mut v = pf_entries;
+        for p in unusual_v6().into_iter().chain([MPfx::v4([255, 255, 255, 255], 32), MPfx::v4([192, 0, 2, 1], 32)]) { for a in [None, Some(64496u32)] { v.push(MPF { prefix: Some(p), asn: a, comment: None }) } }
         v
     };
     let bf_entries: Vec<MBF> = {
@@ -501,6 +685,16 @@ fn main() {
             let mut mls = vec![None, Some(p.len), Some(w)]; if p.len < w { mls.push(Some(p.len + 1)) }
             mls.dedup();
             for ml in mls { for a in asn3 { for c in [None, Some(""), Some(TRICKY)] { v.push(MPA { p, maxlen: ml, asn: a, comment: c }) } } }
+        }
+        v
+    };
+    let pa_entries: Vec<MPA> = {
+        let mut v = pa_entries;
+        for p in unusual_v6().into_iter().chain([MPfx::v4([255, 255, 255, 255], 32)]) {
+            let w = p.width() as u8;
+            let mut mls = vec![None, Some(p.len), Some(w)]; if p.len < w { mls.push(Some(p.len + 1)) }
+            mls.dedup();
+            for ml in mls { for c in [None, Some(TRICKY)] { v.push(MPA { p, maxlen: ml, asn: 64496, comment: c }) } }
         }
         v
     };
